@@ -1,8 +1,8 @@
 SPECIFICATION MCSpec
 CONSTANTS
   Procs = {1, 2}
-  MaxClock = 1
-  Files = {"a", "b"}
+  MaxClock = 2
+  Files = {"a"}
   STRIDE = 37
 INVARIANT C19_FreshDir
 INVARIANT C19_Distinct
